@@ -184,6 +184,23 @@ Proof.
   unfold parse_raw_change_data. rewrite He. reflexivity.
 Qed.
 
+(* what an accepted input looks like: the cursor parse succeeded and ended exactly at the end *)
+Lemma parse_ok_inv bytes x :
+  parse_raw_change_data tsize dec bytes = Ok x ->
+  parse_raw_change_cur tsize dec (mkCur bytes 0) = Ok (x, mkCur bytes (len bytes)).
+Proof.
+  unfold parse_raw_change_data, expect_end. intros H.
+  destruct (parse_raw_change_cur tsize dec (mkCur bytes 0)) as [[y c]| |] eqn:E; cbn [bind] in H; try discriminate.
+  destruct (tr_parse_raw_change_cur bytes 0 0 y c ltac:(lia) E) as (p' & -> & _). cbn [c_pos c_bytes] in H.
+  destruct (p' =? len bytes) eqn:Ep; cbn [bind] in H; [|discriminate]. apply N.eqb_eq in Ep. subst p'. now injection H as ->.
+Qed.
+
+(* every strict prefix of ANY accepted input is rejected *)
+Lemma accepted_prefix_rejected bytes x m :
+  parse_raw_change_data tsize dec bytes = Ok x -> m < len bytes ->
+  exists e, parse_raw_change_data tsize dec (take m bytes) = Err e.
+Proof. intros H Hm. eapply parse_truncated_fails; [apply parse_ok_inv; exact H|exact Hm]. Qed.
+
 (* the parser never ends behind its input: the length fields it accepted fit the bytes *)
 Lemma parse_pos_bound bytes x c' :
   parse_raw_change_cur tsize dec (mkCur bytes 0) = Ok (x, c') -> c_pos c' <= len bytes.
@@ -405,7 +422,10 @@ Qed.
 (* change-record round trip *)
 Theorem parse_serialize r : valid_record r ->
   parse_raw_change_data tsize dec (serialize_record enc r) = Ok (project_record r).
-Proof. intros Hv. unfold parse_raw_change_data. rewrite parse_serialize_cur by exact Hv. reflexivity. Qed.
+Proof.
+  intros Hv. unfold parse_raw_change_data, expect_end. rewrite parse_serialize_cur by exact Hv. cbn [bind c_pos c_bytes].
+  now rewrite N.eqb_refl.
+Qed.
 
 (* C16_prefix: every strict prefix of a valid record is rejected (with an error, not a panic) *)
 Theorem prefix_rejected r n : valid_record r -> n < len (serialize_record enc r) ->
@@ -417,8 +437,29 @@ Qed.
 (* the parser is total: Ok or Err, never a panic, on every byte string *)
 Theorem parse_never_panics bytes : parse_raw_change_data tsize dec bytes <> Panic.
 Proof.
-  unfold parse_raw_change_data. pose proof (np_parse_raw_change_cur (mkCur bytes 0)).
-  destruct (parse_raw_change_cur tsize dec (mkCur bytes 0)) as [[x c]| |]; cbn; congruence.
+  unfold parse_raw_change_data, expect_end. pose proof (np_parse_raw_change_cur (mkCur bytes 0)).
+  destruct (parse_raw_change_cur tsize dec (mkCur bytes 0)) as [[x c]| |]; cbn; try congruence.
+  destruct (c_pos c =? len (c_bytes c)); cbn; discriminate.
+Qed.
+
+(* an input with anything appended to an accepted record is rejected (expect_end) *)
+Theorem trailing_bytes_rejected bytes x extra :
+  parse_raw_change_data tsize dec bytes = Ok x -> extra <> [] ->
+  exists e, parse_raw_change_data tsize dec (bytes ++ extra) = Err e.
+Proof.
+  intros H Hx. pose proof (parse_ok_inv tsize dec bytes x H) as Hc.
+  assert (Hl : len bytes < len (bytes ++ extra)).
+  { rewrite len_app. destruct extra; [congruence|]. rewrite len_cons. lia. }
+  unfold parse_raw_change_data.
+  destruct (parse_raw_change_cur tsize dec (mkCur (bytes ++ extra) 0)) as [[y c]|e|] eqn:E; cbn [bind].
+  - destruct (tr_parse_raw_change_cur tsize dec (bytes ++ extra) 0 (len bytes) y c ltac:(lia) E) as (p' & -> & _ & Hb & Hle & Hgt).
+    rewrite (take_app_exact bytes extra (len bytes) eq_refl) in Hle, Hgt.
+    destruct (N.le_gt_cases p' (len bytes)) as [H1|H1].
+    + rewrite Hc in Hle. specialize (Hle H1). injection Hle as _ Hp. unfold expect_end. cbn [c_pos c_bytes].
+      destruct (p' =? len (bytes ++ extra)) eqn:Ep; [lia|]. cbn. eauto.
+    + destruct (Hgt ltac:(lia) H1) as [e He]. congruence.
+  - eauto.
+  - exfalso. apply (np_parse_raw_change_cur (mkCur (bytes ++ extra) 0)). exact E.
 Qed.
 End RT.
 
